@@ -40,5 +40,23 @@ def lenPrefixed (body : Enc → ERes Unit) (e : Enc) : ERes Unit :=
   | .err k e1 => .err k e1
   | .panic s => .panic s
 
+/-- the same place / body / back-patch pattern where the length is converted with `u16::try_from(..)`
+and an overflow is an `Err`, not an assertion (`SvcParamValue::emit`) -/
+def lenPrefixedTry (body : Enc → ERes Unit) (e : Enc) : ERes Unit :=
+  match e.place 2 with
+  | .ok start e1 =>
+    match body e1 with
+    | .ok _ e2 =>
+      match e2.lenSincePlace start 2 with
+      | .ok len =>
+        if len > 65535 then .err .other e2
+        else e2.placeReplace start 2 (fun x => x.emitU16 len)
+      | .err => .panic "unreachable"
+      | .panic s => .panic s
+    | .err k e2 => .err k e2
+    | .panic s => .panic s
+  | .err k e1 => .err k e1
+  | .panic s => .panic s
+
 end Enc
 end HickoryVerif
